@@ -27,6 +27,7 @@ CLIB = ctypes.CDLL(_ext.__file__)
 for _n in ('verif_clock_set', 'verif_clock_advance'):
     getattr(CLIB, _n).argtypes = [ctypes.c_longlong]
 CLIB.verif_clock_mode.argtypes = [ctypes.c_int, ctypes.c_longlong]
+CLIB.verif_clock_advance.restype = None
 CLIB.verif_clock_get.restype = ctypes.c_longlong
 CLIB.verif_clock_reads.restype = ctypes.c_longlong
 
@@ -113,6 +114,13 @@ class Recorder:
         self.midflight_disable = False
         self.nevents = 0
         self.kinds = set()
+        # independent per-invocation time accounting (C02 oracle; exact when the clock costs nothing per read)
+        self.clock = 0
+        self.open = {}            # frame -> (label, line, blk, clock at the LINE event)
+        self.incl = {}            # (label, line) -> ticks from each LINE event to the same frame's next event
+        self.reentrant = set()    # labels whose code ran re-entrantly (another live invocation had a line in flight)
+        self.enabled_at = None
+        self.enabled_span = 0
 
     # -- declarations
     def declare(self, funcs):
@@ -192,9 +200,15 @@ class Recorder:
                 self.nevents += 1
                 lab = self.regcodes.get(id(code))
                 if lab is not None:
+                    o = self.open.pop(fr, None)
+                    if o is not None:
+                        self.incl[(o[0], o[1])] = self.incl.get((o[0], o[1]), 0) + (self.clock - o[3])
                     if event == 'line':
                         self.counts[(lab, line)] = self.counts.get((lab, line), 0) + 1
                         self.inflight[fr] = (lab, line)
+                        if any(v[2] == (base, pad) for v in self.open.values()):
+                            self.reentrant.add(lab)
+                        self.open[fr] = (lab, line, (base, pad), self.clock)
                     else:
                         self.inflight.pop(fr, None)
                 elif event == 'line':
@@ -205,6 +219,7 @@ class Recorder:
 
     def enable_by_count(self):
         if self.count == 0:
+            self.enabled_at = self.clock
             self.ops.append('enbc 0')
             f = sys._getframe(1)
             while f is not None:
@@ -227,6 +242,8 @@ class Recorder:
                 if self.inflight:
                     self.midflight_disable = True
                     self.inflight.clear()
+                self.open.clear()
+                self.enabled_span += self.clock - self.enabled_at
         self.ops.append('disbc 0')
 
     def __enter__(self):
@@ -236,6 +253,7 @@ class Recorder:
         self.disable_by_count()
 
     def tick(self, n):
+        self.clock += n
         self.ops.append('tick %d' % n)
 
     def snapshot(self):
@@ -338,7 +356,9 @@ def run_case(case, delta):
     hashes = [h for hs in p.code_hash_map.values() for h in hs]
     collision = len(hashes) != len(set(hashes))
     return {'ops': rec.ops, 'resA': resA, 'resB': resB, 'real_snaps': snaps, 'real_blks': blks,
-            'oracle': oracle, 'alias': alias, 'midflight_disable': rec.midflight_disable, 'nevents': rec.nevents,
+            'oracle': oracle, 'alias': alias,
+            'incl': {'%d:%d' % k: v for k, v in sorted(rec.incl.items())}, 'reentrant': sorted(rec.reentrant),
+            'enabled_span': rec.enabled_span, 'clock_end_B': CLIB.verif_clock_get(), 'midflight_disable': rec.midflight_disable, 'nevents': rec.nevents,
             'collision': collision, 'labels': {str(v): list(k) for k, v in labels.d.items()}}
 
 
